@@ -1,10 +1,11 @@
-// C13 TIFF part A: gray types; also the repo's sample TIFF
+// C13 TIFF part A: bit-aligned gray types and gray8
 #include "c13_tiff.hpp"
-using Part = mp::mp_list<gil::gray1_image_t, gil::gray2_image_t, gil::gray4_image_t, gil::gray8_image_t, gil::gray16_image_t, gil::gray32f_image_t>;
-using PartB = mp::mp_list<gil::rgb8_image_t, gil::rgb16_image_t, gil::rgb32f_image_t, gil::rgba8_image_t, gil::rgba16_image_t, gil::cmyk8_image_t, gil::cmyk16_image_t>;
-// parts A and B are exactly the computed list of supported types minus bgr8 (same file layout as rgb8)
-static_assert(mp::mp_size<mp::mp_set_union<Part, PartB>>::value + 1 == mp::mp_size<c12::Supported<gil::tiff_tag>>::value, "TIFF parts must cover the supported list");
-static_assert(mp::mp_all_of_q<mp::mp_append<Part, PartB>, c12::IsRW<gil::tiff_tag>>::value, "TIFF part types must be supported");
+using Part = mp::mp_list<gil::gray1_image_t, gil::gray2_image_t, gil::gray4_image_t, gil::gray8_image_t>;
+using PartB = mp::mp_list<gil::gray16_image_t, gil::gray32f_image_t, gil::rgb8_image_t, gil::rgb16_image_t, gil::rgb32f_image_t>;
+using PartC = mp::mp_list<gil::rgba8_image_t, gil::rgba16_image_t, gil::cmyk8_image_t, gil::cmyk16_image_t>;
+// parts A, B and C are exactly the computed list of supported types minus bgr8 (same file layout as rgb8)
+static_assert(mp::mp_size<mp::mp_set_union<Part, PartB, PartC>>::value + 1 == mp::mp_size<c12::Supported<gil::tiff_tag>>::value, "TIFF parts must cover the supported list");
+static_assert(mp::mp_all_of_q<mp::mp_append<Part, PartB, PartC>, c12::IsRW<gil::tiff_tag>>::value, "TIFF part types must be supported");
 VH_GROUP(seeds) { tiff_seeds<Part>(ctx); }
 VH_GROUP(samples)
 {
@@ -19,7 +20,6 @@ VH_GROUP(samples)
     try { auto b = gil::read_image_info(path, gil::tiff_tag()); spp = b._info._samples_per_pixel; bps = b._info._bits_per_sample; } catch (...) {}
     ++ctx.counters[std::string(vh::S() << "sample_tiff_spp" << spp << "_bps" << bps)];
     if (spp == 1 && bps == 8) { ++ctx.witness["sample_files"]; run_typed<gil::gray8_image_t>(ctx, sv, o); }
-    else if (spp == 1 && bps == 16) { ++ctx.witness["sample_files"]; run_typed<gil::gray16_image_t>(ctx, sv, o); }
-    else ++ctx.counters["sample_needs_part_b_type"];
+    else ++ctx.counters["sample_not_native_to_this_part"];
 }
 VH_MAIN
